@@ -203,9 +203,5 @@ def run_shard(ctx):
             return
     n = 150 if ctx.tier == "quick" else 4000
     from hypothesis import strategies as st
-    ctx.run_given(st.one_of(
-        pvcase.cases(ks=(2, 3), loops_required=True),
-        pvcase.cases(ks=(2, 3), loops_required=True),
-        pvcase.cases(ks=(2, 3), loops_required=True, empty_break=True,
-                     adjacent=True)),
-        lambda c: run_case(c, ctx), n, shrinker=pvcase.shrinker)
+    ctx.run_given(pvcase.cases(ks=(2, 3), loops_required=True),
+                  lambda c: run_case(c, ctx), n, shrinker=pvcase.shrinker)
